@@ -157,6 +157,9 @@ func c01(r *Report) propMeta {
 	r.Rule("C01.R10", "store-key agreement: every point read/delete addresses a written key family")
 	r.StoreKeyAgreement("store-keys", "oracle", 14, nil)
 
+	r.Rule("C01.R11", "E19 constructors of x/oracle/types store their inputs unchanged")
+	r.CtorFaithful("ctor", faithfulCtors["oracle"]...)
+
 	return propMeta{
 		Decided: []string{
 			"R1 result/report/cursor/pending stores are written only by their single setter",
@@ -168,6 +171,7 @@ func c01(r *Report) propMeta {
 			"R7 EndBlocker resolves, then clears the list exactly once with a fresh empty list, then processes expiry",
 			"R9 ReportData / AddReport / CheckValidReport reject only for the frozen set of reasons (a new rejection, e.g. a height-based expiry test in the message path, is reported)", "R8 every NewResult argument is the like-named field of the stored request / the live report count / block time",
 			"R10 every KV-store Get/Has/Delete of x/oracle uses a key builder of x/oracle/types that some Set of the module also uses (a probe of an iteration prefix or of a sibling family is always-empty state)",
+			"R11 the literal constructors of x/oracle/types (frozen list) store each parameter or a constant unchanged in the record they build: what a handler validated is what is stored",
 		},
 		Undecided: []string{"correctness of the owasm script output", "that the pending list never carries a stale id across blocks (history invariant; R7 is its structural half)", "interleavings beyond the per-path facts"},
 		Assume:    []string{"go/types + go/ssa + VTA call graph are sound for this reflection-free keeper code", "baseapp runTx executes a message atomically", "genesis import is trusted (InitGenesis may write the stores)"},
